@@ -89,7 +89,7 @@ theorem update_notNewer_noop (mc : Merge.Cfg) (ik : Bool) (db : KVs) (d : Bool) 
     rw [hg] at hm
     refine ⟨none, ?_, rfl⟩
     simp only [Option.getD_none]
-    have hm' : Header.isDeleted (maskedFlags e) = true ∧ e.ts < mc.cutoff := hm
+    have hm' : entryDeleted mc e = true ∧ e.ts < mc.cutoff := hm
     rw [merge_absent, if_pos hm']
 
 /-- the DBI message contains nothing newer (and passes the gates of `loadDbi`, and no DBI has to
